@@ -56,6 +56,23 @@ Theorem C08_literals_opaque : forall (segs : list seg), wf_segs segs ->
 Proof. exact literals_opaque. Qed.
 Print Assumptions C08_literals_opaque.
 
+(* the same for the rbql-js scanner (after fix a149087 of finding D13; quote characters SQ, DQ, backtick; a backslash
+   escapes ANY next character; LF allowed inside a literal) *)
+Theorem C08_literals_opaque_js : forall (segs : list jseg), jwf_segs segs ->
+  separate_string_literals LJs (jrender segs) = (jplaceholders 0 segs, jliterals segs).
+Proof. exact literals_opaque_js. Qed.
+Print Assumptions C08_literals_opaque_js.
+
+(* non-vacuity, on the input of finding D13: select DQ a\\ DQ where a1 != DQ z DQ separates into two literals *)
+Example C08_literals_js_nonvacuous :
+  jwf_segs ex_jsegs /\ jliterals ex_jsegs = [[QT; 97; BSL; BSL; QT]; [QT; 122; QT]] /\
+  snd (separate_string_literals LJs (jrender ex_jsegs)) = jliterals ex_jsegs.
+Proof.
+  split; [exact (proj1 literals_opaque_js_example)|]. split; [reflexivity|].
+  rewrite (literals_opaque_js ex_jsegs (proj1 literals_opaque_js_example)). reflexivity.
+Qed.
+Print Assumptions C08_literals_js_nonvacuous.
+
 (* non-vacuity: select DQ where \DQ TAB #,; a1 SQ = * DQ, a1 TAB SQSQSQ from a \x order by SQSQSQ + DQDQ x
    is well-formed and separates into three placeholders and the three literal texts, TAB inside the literal kept,
    TAB outside replaced by a space *)
